@@ -340,6 +340,7 @@ INVALID = [
     ("opt", "PD_gapIV", {"gamma": 0}), ("opt", None, {"gamma": 0}), ("opt", "PD_gap", {"gamma": 2}),
     ("d", 0), ("d", -1), ("d", 1.5), ("d", "2"), ("d", None),
     ("sense", "leq"), ("sense", None), ("sense", "Equality"),
+    ("block", -1), ("block", -2), ("block", 2), ("block", 5), ("block", None), ("block", "0"),
     # the public attribute set to an invalid value AFTER the constraint was created, the model then solved on either path
     ("sense_after", "Equality"), ("sense_after", "equal"), ("sense_after", ""), ("sense_after", None),
     ("sense_after@mosek", "Equality"), ("sense_after@mosek", None),
@@ -369,6 +370,8 @@ def run_invalid(case, spec=None, solver="CLARABEL"):
             out = ctx.pep.declare_block_partition(d=val)
         elif name == "sense":
             out = Constraint(ctx.exprs["dn"], val)
+        elif name == "block":
+            out = ctx.pep.declare_block_partition(d=2).get_block(ctx.points["x0"], val)
         elif name.startswith("sense_after"):
             ctx.constraints["init"].equality_or_inequality = val
             r_ = solving.solve(ctx.pep, backend="mosek" if name.endswith("@mosek") else "cvxpy")
